@@ -7,7 +7,7 @@ Recipe
             "mk0": {"a": "t0", "b": "t0h"}, "mk1": {"b": "t0h"}},   # "mk*": MultiDomains of input keys themselves
  "keys":  {"a": "t0", "b": "t0h", ...},             # input key -> type ("<t>h" = harmonic partner of <t>)
  "expr":  tree,                                     # see build() / build_energy()
- "seq":   {"perm": [keys...], "nconst": 2|3},       # 4 keys: which constants are fixed one after the other
+ "seq":   {"perm": [keys...], "nconst": 2|3},       # >= 3 keys: which constants are fixed one after the other
  "x":     {"a": [...], ...},                        # full position (flat values per key)
  "y":     {"a": [...], ...},                        # second position (value check of the specialised operator)
  "adapter": {"min": "NewtonCG", "iters": 2, "wm": true}}   # energy subs only
@@ -17,7 +17,8 @@ Field-valued nodes: ["var", key] ["duck", key, chain-on-["id", type]] ["ptw", f,
 ["dense", M, to_type, x] ["hart", x] ["sum", x] ["integrate", x] ["mul"|"add"|"sub"|"div"|"vdot", l, r]
 ["pack", mtype, {tkey: x}] ["get", tkey, x] ["subst", zkey, ztype, inner, outer, use_partial_insert]
 ["jax", template, [keys]] ["lop", A, B, lop] (LinearOperator dom(mk-type A) -> dom(mtype B) acting directly on the
-input keys of A) ["lapp", A, B, lop, x] (the same applied to an A-valued expression).
+input keys of A) ["lapp", A, B, lop, x] (the same applied to an A-valued expression) ["count", A] (CountingOperator
+on the input keys of mk-type A).
 Linear operators between MultiDomains (build_lop): ["id", A, c] ["diag", A, {tkey: vec}] ["block", A, {tkey: M}]
 (BlockDiagonalOperator, missing entries = identity) ["proj", A, [tkeys]] (PartialExtractor.adjoint @ PartialExtractor)
 ["pe", A, B] ["pe_adj", A, B] ["mix", A, B, [[tkey_in, tkey_out, M, neg], ...], "make"|"arith"] (sum of dense maps
@@ -39,11 +40,12 @@ un-specialised operator: for EVERY non-empty proper subset K of op.domain.keys()
     dense metric   of op2 at x|V   == (V, V) block of dense metric of op at x     (energies)
     Jacobian of op at Linearization.make_partial_var(x, K) == [J_V | 0]
 
-SEQUENCES of specialisations: for constant sets K with >= 2 keys (all of them for <= 3 keys, the one drawn in
-"seq" for 4 keys) and EVERY ordered partition (G1, ..., Gm), m >= 2, of K, the operator obtained by specialising
-for x|G1, then specialising the result for x|G2, ... must satisfy the same domain / target / value / Jacobian /
-metric relations against the un-specialised operator (buckets prefixed "seq_"; intermediate stages of longer
-sequences: value); for energies also EnergyAdapter(x|rest, <op specialised for G1>, constants=G2).
+SEQUENCES of specialisations (>= 3 keys): for the constant set K drawn in "seq" (first nconst keys of perm, at
+least 2, at least one key stays variable) and EVERY ordered partition (G1, ..., Gm), m >= 2, of K, the operator
+obtained by specialising for x|G1, then specialising the result for x|G2, ... must satisfy the same domain /
+target / value / Jacobian / metric relations against the un-specialised operator (buckets prefixed "seq_";
+intermediate stages of longer sequences: value); for energies also
+EnergyAdapter(x|rest, <op specialised for G1>, constants=G2).
 
 and ift.EnergyAdapter(x, op, constants=K): position/gradient/metric live on keys \\ K only, value,
 gradient and metric equal the restricted quantities of `op`, and after a few minimiser steps the
@@ -79,9 +81,9 @@ RULE = ("Typed random multi-key (2-4 keys, <=6 pixels per key) operator and ener
         "integration, adder), pointwise nonlinearities on valid ranges, * + - / @ vdot sum ducktape "
         "partial_insert, MultiDomain-valued intermediates, LinearOperators acting on MultiDomains of several input "
         "keys (BlockDiagonal, PartialExtractor and projections, SumOperator.make with explicit signs, identity "
-        "+/- operator, chains, scalings, adjoints) as leaves and around nonlinear parts; energies: Gaussian (with/without data, inverse "
-        "covariance), Poissonian, Bernoulli, InverseGamma, StudentT, VariableCovarianceGaussian (raw and "
-        "chained), likelihood sums, scaled likelihoods, AveragedEnergy, StandardHamiltonian with/without "
+        "+/- operator, chains, scalings, adjoints) as leaves and around nonlinear parts; energies: Gaussian "
+        "(with/without data, inverse covariance), Poissonian, Bernoulli, InverseGamma, StudentT, "
+        "VariableCovarianceGaussian (raw and chained), likelihood sums, scaled likelihoods, AveragedEnergy, StandardHamiltonian with/without "
         "ic_samp, generic energy sums. For every tree EVERY non-empty proper subset of the input keys is made "
         "constant; oracle = value / dense Jacobian / dense metric of the specialised operator against the "
         "corresponding restriction of the un-specialised one; the same for constants fixed group after group "
@@ -282,6 +284,10 @@ def build(u, node, scope):
         L = build_lop(u, node[3])
         assert L.domain is u.dom(node[1]) and L.target is u.dom(node[2]), (L.domain, L.target)
         return L, node[2]
+    if k == "count":
+        # CountingOperator (identity with call counters) on the MultiDomain of the input keys named by node[1]
+        assert all(scope[kk] == tt for kk, tt in u.mtypes[node[1]].items())
+        return ift.CountingOperator(u.dom(node[1])), node[1]
     if k == "lapp":
         o, t = build(u, node[4], scope)
         assert t == node[1]
@@ -464,7 +470,8 @@ def build_energy(u, node, scope):
 
 
 CHILD_POS = {
-    "var": [], "id": [], "vcge_raw": [], "jax": [], "jaxlh": [], "lop": [], "lapp": [4], "duck": [2], "ptw": [2], "pow": [2], "clip": [3], "scale": [2], "neg": [1],
+    "var": [], "id": [], "vcge_raw": [], "jax": [], "jaxlh": [], "lop": [], "count": [], "lapp": [4],
+    "duck": [2], "ptw": [2], "pow": [2], "clip": [3], "scale": [2], "neg": [1],
     "diag": [2], "addf": [2], "addc": [2], "dense": [3], "hart": [1], "sum": [1], "integrate": [1], "get": [2],
     "mul": [1, 2], "add": [1, 2], "sub": [1, 2], "div": [1, 2], "vdot": [1, 2], "subst": [3, 4],
     "gauss": [3], "poisson": [2], "bernoulli": [2], "invgamma": [3], "studentt": [2], "vcge": [2, 3],
@@ -484,7 +491,7 @@ def leafkeys(node, bound=(), mt=None):
     k = node[0]
     if k == "var":
         return set() if node[1] in bound else {node[1]}
-    if k == "lop":
+    if k in ("lop", "count"):
         return set(mt[node[1]])
     if k == "duck":
         return {node[1]}
@@ -511,7 +518,7 @@ def binary_nodes(node, acc, bound=(), depth=0, mt=None):
     if k in ("jax", "jaxlh"):
         acc.append((k, [{kk} for kk in (node[2] if k == "jax" else node[1])], depth))
         return
-    if k == "lop":
+    if k in ("lop", "count"):
         acc.append((k, [{kk} for kk in sorted(mt[node[1]])], depth))
         return
     ch = children(node)
@@ -695,13 +702,11 @@ def _ordered_partitions(K):
 
 
 def _sequence_sets(rec, keys):
-    """constant key sets (>= 2 keys, proper) that are reached by successive specialisation: all of them for
-    <= 3 keys, the one drawn in the recipe for 4 keys"""
+    """constant key sets (>= 2 keys, proper) that are reached by successive specialisation: the one drawn in
+    the recipe (first `nconst` keys of the permutation `perm`); needs >= 3 keys"""
     n = len(keys)
     if n < 3:
         return []
-    if n == 3:
-        return list(itertools.combinations(keys, 2))
     sq = rec.get("seq") or {"perm": keys, "nconst": 2}
     perm = [k for k in sq["perm"] if k in keys]
     nc = min(max(int(sq["nconst"]), 2), n - 1)
@@ -840,7 +845,7 @@ def _finish(rec, r):
         classes.add("built_sum_first_negated")
     nb = []
     binary_nodes(rec["expr"], nb, mt=mt)
-    nontrivial = bool(r.cut) and ((len(nb) >= 2 and r.deep) or bool(r.cut & {"jax", "jaxlh", "lop"}))
+    nontrivial = bool(r.cut) and ((len(nb) >= 2 and r.deep) or bool(r.cut & {"jax", "jaxlh", "lop", "count"}))
     return dict(nontrivial=nontrivial, classes=sorted(classes))
 
 
@@ -1443,6 +1448,10 @@ def _gen_mlin(ctx, B, depth, scope, must, linear):
     leaf = [A for A in ctx.kmt if set(must) <= set(ctx.mtypes[A])
             and all(scope.get(k) == ty for k, ty in ctx.mtypes[A].items())]
     ldepth = draw(st.sampled_from([-1, 0, 0, 1, 1, 2]))
+    if B in leaf and not linear and draw(st.integers(0, 9)) == 0:
+        lo = min(ctx.key_iv(k)[0] for k in ctx.mtypes[B])
+        hi = max(ctx.key_iv(k)[1] for k in ctx.mtypes[B])
+        return ["count", B], (lo, hi)
     if leaf and (depth <= 0 or draw(st.integers(0, 2))):
         A = draw(st.sampled_from(leaf))
         spec, gi, _ = _gen_lop(ctx, A, B, ldepth)
@@ -1662,7 +1671,7 @@ def _key_mtypes(draw, keys, mtypes):
 
 
 def _seq(draw, keys):
-    """which constant keys are fixed one after the other (used for 4 keys; <= 3 keys: all pairs)"""
+    """which constant keys are fixed one after the other (>= 3 keys)"""
     return {"perm": list(draw(st.permutations(sorted(keys)))), "nconst": draw(st.sampled_from([2, 2, 3]))}
 
 
